@@ -53,6 +53,17 @@ Proof. intros c H. unfold eff_pause, dflt. apply Z.leb_le in H. now rewrite H. Q
 Print Assumptions C13_default_pause_time.
 
 
+(* a Pause() made while a listener keeps the loop busy is not lost and is not shortened: the request is still
+   pending when the listener returns (C08_nothing_lost_while_listener_runs), the pause event is raised then, and the
+   loop sleeps exactly PauseTime from that event (C13_pause_begins and C13_resume_exactly_at_the_end apply to the idle loop) *)
+Theorem C13_pause_request_survives_a_busy_listener : forall c s s' o,
+  step c s ILoopUnbusy = Some (s', o) ->
+  exists t, loop s = LBusy t /\ t = now s /\ loop s' = LIdle /\ o = []
+    /\ flush_tok s' = flush_tok s /\ pause_tok s' = pause_tok s /\ stop_req s' = stop_req s
+    /\ tk_flush s' = tk_flush s /\ tk_cap s' = tk_cap s /\ tk_audit s' = tk_audit s /\ buffer s' = buffer s.
+Proof. exact unbusy_effect. Qed.
+Print Assumptions C13_pause_request_survives_a_busy_listener.
+
 Theorem C13_source_constants :
   V1_default_pauseTime = default_pause /\ V2_default_pauseTime = default_pause.
 Proof. split; reflexivity. Qed.
